@@ -147,7 +147,18 @@ def _sites(p):
     for i in range(len(p["usepulses"])):
 
         def use(ch, i=i):
-            p["usepulses"][i] = p["usepulses"][i] + "x"
+            m = p["usepulses"][i]
+            if ch % 3 == 0:
+                m = m + "x"
+            elif ch % 3 == 1:
+                m = m[1:] if m.startswith(".") and len(m) > 1 else "." + m
+            else:
+                parts_ = m.split(".")
+                parts_[-1] = parts_[-1] + "2"
+                m = ".".join(parts_)
+            if m in p["usepulses"]:
+                return False
+            p["usepulses"][i] = m
             return True
 
         out.append(("usepulses-module", 0, False, use))
